@@ -31,11 +31,16 @@ fn gen_app(rng: &mut Rng, ids: &mut IdGen, depth: usize, params_left: usize, tak
             // no mount above or below another mount, no route of this app exactly at the prefix; routes of this app *below* the prefix are
             // fine as long as their next segment cannot meet a first segment of the mounted application (ohkami refuses that, in one
             // registration order at least): `/api/:id` here plus an application with `/me`, `/me/settings` mounted at `/api` is an ordinary set-up
-            if used.iter().any(|(r, m)| (*m && (shape_prefix(&prefix, r) || shape_prefix(r, &prefix))) || (!*m && same_shape(r, &prefix))) {
+            if used.iter().any(|(r, m)| *m && (shape_prefix(&prefix, r) || shape_prefix(r, &prefix))) {
                 continue;
             }
             let sub = gen_app(rng, ids, depth + 1, params_left - n_params(&prefix), &prefix);
-            if used.iter().any(|(r, m)| !*m && shape_prefix(&prefix, r) && first_seg_conflict(&sub, &r[prefix.len()])) {
+            // a route of this application exactly AT the prefix (`"/users".GET(list)` next to `"/users".By(sub)`) is fine when the mounted
+            // application has no route of its own at `/` (two handlers for one method at one place are refused by ohkami)
+            if used.iter().any(|(r, m)| !*m && same_shape(r, &prefix)) && has_root_route(&sub) {
+                continue;
+            }
+            if used.iter().any(|(r, m)| !*m && r.len() > prefix.len() && shape_prefix(&prefix, r) && first_seg_conflict(&sub, &r[prefix.len()])) {
                 continue;
             }
             used.push((prefix.clone(), true));
@@ -48,7 +53,7 @@ fn gen_app(rng: &mut Rng, ids: &mut IdGen, depth: usize, params_left: usize, tak
                 if !mps.is_empty() {
                     let mp = rng.pick(&mps).clone();
                     let mut extra = gen_route(rng, 2, params_left.saturating_sub(n_params(&mp)).min(1));
-                    if extra.is_empty() { extra.push(Seg::S(rng.pick(&STATIC_NAMES).to_string())) }
+                    if extra.is_empty() && rng.bool() { extra.push(Seg::S(rng.pick(&STATIC_NAMES).to_string())) }
                     route = [mp, extra].concat();
                 }
             }
@@ -56,7 +61,7 @@ fn gen_app(rng: &mut Rng, ids: &mut IdGen, depth: usize, params_left: usize, tak
                 continue;
             }
             // routes split over several items are allowed as long as (route, method) stays unique; below a mount prefix see above
-            if items.iter().any(|it| matches!(it, ItemDesc::Mount { prefix, app } if shape_prefix(prefix, &route) && (route.len() == prefix.len() || first_seg_conflict(app, &route[prefix.len()])))) {
+            if items.iter().any(|it| matches!(it, ItemDesc::Mount { prefix, app } if shape_prefix(prefix, &route) && (if route.len() == prefix.len() { has_root_route(app) } else { first_seg_conflict(app, &route[prefix.len()]) }))) {
                 continue;
             }
             if items.iter().any(|it| matches!(it, ItemDesc::Mount { prefix, .. } if shape_prefix(prefix, &route))) {
@@ -98,6 +103,10 @@ fn gen_app(rng: &mut Rng, ids: &mut IdGen, depth: usize, params_left: usize, tak
 }
 
 pub static ROUTES_BELOW_MOUNT: std::sync::atomic::AtomicU64 = std::sync::atomic::AtomicU64::new(0);
+
+fn has_root_route(app: &AppDesc) -> bool {
+    app.items.iter().any(|it| matches!(it, ItemDesc::Routes { route, .. } if route.is_empty()))
+}
 
 /// would a route of the mounting application whose first segment below the mount prefix is `seg` meet a first segment of the mounted one?
 fn first_seg_conflict(app: &AppDesc, seg: &Seg) -> bool {
